@@ -16,6 +16,10 @@ func init() {
 			"label": map[string]any{"pkg": s2b(l.Package), "name": s2b(l.Name)},
 			"str":   s2b(l.String())}, nil
 	})
+	register("label.short", func(req map[string]any) (any, error) {
+		l := label.TargetLabel{Package: b2s(req["pkg"]), Name: b2s(req["name"])}
+		return map[string]any{"short": l.CanBeShortened(), "str": s2b(l.String())}, nil
+	})
 	register("pattern.parse", func(req map[string]any) (any, error) {
 		p, err := label.ParseTargetPattern(b2s(req["cur"]), b2s(req["s"]))
 		if err != nil {
